@@ -64,6 +64,39 @@ func runC09(o *hx.Out, r *hx.Rand, thorough bool) {
 		o.Case(kind, fmt.Sprintf("Srv %s %s %s %s %s", hdr, hx.B(has), hx.Z(lo), hx.Z(hi), hx.B(panicked)), desc)
 	}
 	srv("absent", false, "")
+	// the request's context may already carry a (later or earlier) deadline of the server's own, e.g. under
+	// http.TimeoutHandler: the handler gets the earlier of the two, in whatever unit the caller's was written
+	for _, v := range []struct {
+		hdr string
+		d   time.Duration
+	}{{"2000000u", 2 * time.Second}, {"1500000000n", 1500 * time.Millisecond}, {"3S", 3 * time.Second}, {"250m", 250 * time.Millisecond}, {"1M", time.Minute}, {"1H", time.Hour}, {"40000000u", 40 * time.Second}} {
+		for _, parent := range []time.Duration{30 * time.Second, 100 * time.Millisecond} {
+			pctx, pcancel := context.WithTimeout(context.Background(), parent)
+			t0 := time.Now()
+			ctx, cancel, err := httpgrpc.VerifContextFromHeaders(pctx, http.Header{"Grpc-Timeout": {v.hdr}})
+			want := v.d
+			if parent < want {
+				want = parent
+			}
+			ok := err == nil
+			var got time.Duration
+			if ok {
+				dl, has := ctx.Deadline()
+				got = dl.Sub(t0)
+				ok = has && got > want-20*time.Millisecond && got < want+20*time.Millisecond
+				cancel()
+			}
+			pcancel()
+			d := map[string]interface{}{"side": "server", "grpc-timeout": v.hdr, "request_context_deadline": parent.String(), "handler_deadline_in": got.String(), "expected": want.String()}
+			if !ok {
+				o.Violate("the handler's deadline is not the earlier of the caller's timeout and the request context's own deadline", d, got.String(), want.String())
+			}
+			if parent > v.d {
+				// then it is the header's: the same observation in the vocabulary of the model
+				o.Case("server_with_parent_deadline", fmt.Sprintf("Srv (Some %s) %s %s %s false", hx.Str(v.hdr), hx.B(ok), hx.Z(int64(got)-int64(20*time.Millisecond)), hx.Z(int64(got)+int64(20*time.Millisecond))), d)
+			}
+		}
+	}
 	// corpus: values whose product with the unit used to wrap around
 	for _, v := range []string{"2562048H", "99999999H", "5124096H", "307445735M", "18446744074S", "9223372036854775807S",
 		"9223372036854775807n", "9223372036854775808n", "2562047H", "153722867M", "153722868M", "9223372036S", "9223372037S",
